@@ -179,7 +179,7 @@ Definition model_ok (c : case) : bool :=
 (* ---------------------------------------------------------------- property oracle *)
 
 Record ost := {
-  o_cur : option (N * N * Z);          (* key, cert, expire served in the current epoch *)
+  o_cur : option (N * N * Z * Z);      (* key, cert, created, expire served in the current epoch *)
   o_roots : option (list N);           (* CA roots seen by the last successful generation *)
   o_bundle : list N;
   o_incsr : option N;
@@ -204,7 +204,14 @@ Definition has_okret (t : N) (l : list ev) : bool :=
 
 (* one observed event; [timer] = the step is HAdvance; [errholder] = thread whose CSR was answered
    with an error in this step *)
-Definition o_event (timer : bool) (errholder : option N) (o : ost) (e : ev) : ost :=
+(* spec-level rotation window of a certificate, in exact arithmetic: created + lifetime*(1 - clamp(ratio +/- jitter)),
+   with 64ns of slack for the float rounding of lifetimes above 2^53 ns *)
+Definition rot_window_ok (c : cfg) (created expire at_ : Z) : bool :=
+  let r := dyQ (c_ratio c) in let j := dyQ (c_jitter c) in
+  (created + rotate_delay_q created expire created (r + j) - 64 <=? at_)
+  && (at_ <=? created + rotate_delay_q created expire created (r - j) + 64).
+
+Definition o_event (c : cfg) (timer : bool) (errholder : option N) (o : ost) (e : ev) : ost :=
   match e with
   | ECsr t _ =>
     {| o_cur := o_cur o; o_roots := o_roots o; o_bundle := o_bundle o; o_incsr := Some t;
@@ -220,9 +227,9 @@ Definition o_event (timer : bool) (errholder : option N) (o : ost) (e : ev) : os
       (* key and certificate belong together, certificate not expired when served *)
       let o1 := o_req ((k =? cid)%N && negb (k =? 0)%N && (at_ <=? r_expire r)) o in
       match o_cur o1 with
-      | Some (k0, c0, _) => o_req ((k =? k0)%N && (cid =? c0)%N) o1     (* everyone gets the same pair *)
+      | Some (k0, c0, _, _) => o_req ((k =? k0)%N && (cid =? c0)%N) o1     (* everyone gets the same pair *)
       | None =>
-        {| o_cur := Some (k, cid, r_expire r); o_roots := o_roots o1; o_bundle := o_bundle o1;
+        {| o_cur := Some (k, cid, r_created r, r_expire r); o_roots := o_roots o1; o_bundle := o_bundle o1;
            o_incsr := o_incsr o1; o_signed := o_signed o1; o_now := o_now o1; o_ok := o_ok o1 |}
       end
     | None, None =>
@@ -234,7 +241,9 @@ Definition o_event (timer : bool) (errholder : option N) (o : ost) (e : ev) : os
   | ENotify RWorkload at_ =>
     let o1 := if timer
               then match o_cur o with
-                   | Some (_, _, expire) => o_req (at_ <=? expire) o   (* renewal no later than expiry *)
+                   | Some (_, _, created, expire) =>
+                     (* renewal no later than expiry, and at this certificate's own rotation instant *)
+                     o_req ((at_ <=? expire) && rot_window_ok c created expire at_) o
                    | None => o_fail o                                  (* a stale task must be a no-op *)
                    end
               else o in
@@ -243,7 +252,7 @@ Definition o_event (timer : bool) (errholder : option N) (o : ost) (e : ev) : os
   | ENotify RRoot _ => o
   end.
 
-Definition o_step (o : ost) (hs : hstep * list ev) : ost :=
+Definition o_step (c : cfg) (o : ost) (hs : hstep * list ev) : ost :=
   let '(h, obs) := hs in
   match h with
   | HStart t r =>
@@ -253,13 +262,13 @@ Definition o_step (o : ost) (hs : hstep * list ev) : ost :=
       | None, None => has_csr t obs                            (* nothing cached, nobody signing: must try *)
       | None, Some _ => negb (has_csr t obs)                   (* somebody is signing: must not sign too *)
       end in
-    fold_left (o_event false None) obs (o_req pre o)
+    fold_left (o_event c false None) obs (o_req pre o)
   | HReply out next =>
     let holder := o_incsr o in
     let o0 := {| o_cur := o_cur o; o_roots := o_roots o; o_bundle := o_bundle o; o_incsr := None;
                  o_signed := o_signed o; o_now := o_now o; o_ok := o_ok o |} in
     match out with
-    | CaErr => fold_left (o_event false holder) obs o0
+    | CaErr => fold_left (o_event c false holder) obs o0
     | CaOk expire bnd cr =>
       let roots := roots_of bnd cr in
       let announced :=
@@ -270,24 +279,24 @@ Definition o_step (o : ost) (hs : hstep * list ev) : ost :=
       let o1 := {| o_cur := o_cur o0; o_roots := Some roots; o_bundle := o_bundle o0; o_incsr := None;
                    o_signed := o_signed o0; o_now := o_now o0; o_ok := o_ok o0 |} in
       (* a rotation notification inside this step can only come from a zero-delay timer: it follows the returns *)
-      let o2 := fold_left (o_event false None) (filter (fun e => negb (is_notify_w e)) obs) (o_req announced o1) in
-      fold_left (o_event true None) (filter is_notify_w obs) o2
+      let o2 := fold_left (o_event c false None) (filter (fun e => negb (is_notify_w e)) obs) (o_req announced o1) in
+      fold_left (o_event c true None) (filter is_notify_w obs) o2
     end
   | HAdvance d =>
     let T := o_now o + Z.max d 0 in
-    let o1 := fold_left (o_event true None) obs o in
+    let o1 := fold_left (o_event c true None) obs o in
     let o2 := {| o_cur := o_cur o1; o_roots := o_roots o1; o_bundle := o_bundle o1; o_incsr := o_incsr o1;
                  o_signed := o_signed o1; o_now := T; o_ok := o_ok o1 |} in
     (* a certificate still being served at or after its expiry = renewal was missed *)
     match o_cur o2 with
-    | Some (_, _, expire) => o_req (T <? expire) o2
+    | Some (_, _, _, expire) => o_req (T <? expire) o2
     | None => o2
     end
   | HBundle b =>
     let changed := negb (list_N_eqb b (o_bundle o)) in
     let o1 := {| o_cur := o_cur o; o_roots := o_roots o; o_bundle := b; o_incsr := o_incsr o;
                  o_signed := o_signed o; o_now := o_now o; o_ok := o_ok o |} in
-    fold_left (o_event false None) obs
+    fold_left (o_event c false None) obs
       (o_req (negb changed || (has_notify RRoot obs && has_notify RWorkload obs)) o1)
   end.
 
@@ -302,7 +311,7 @@ Definition strict_pre (c : cfg) (created expire : Z) : bool :=
 
 Definition prop_ok (c : case) : bool :=
   match c with
-  | Trace _ cf t0 steps f => o_ok (fold_left o_step steps (o_init t0))
+  | Trace _ cf t0 steps f => o_ok (fold_left (o_step cf) steps (o_init t0))
   | Rot _ cf created expire now_ obs =>
     (0 <=? obs)
     && (negb ((created <=? now_) || (created <=? expire)) || (obs <=? Z.max 0 (expire - now_)))
